@@ -649,7 +649,8 @@ def layer_metal_and_error_handler_sites(ctx, n):
         # invalid syntax, or an expression type nobody registered
         bad = rng.choice(BADS + ['nosuchtype: x', 'path: a/b'])
         site = rng.choice(['macro-body', 'macro-body-used', 'slot-default', 'filler', 'on-error', 'on-error-in-macro', 'macro-attribute',
-                           'plain-content', 'plain-interpolation', 'later-pipe-alternative', 'superseded-filler', 'filler-of-unknown-slot'])
+                           'plain-content', 'plain-interpolation', 'later-pipe-alternative', 'superseded-filler', 'filler-of-unknown-slot',
+                           'pipe-alternative-after-a-literal', 'exists-operand', 'not-exists-operand', 'exists-in-interpolation'])
         lead = rng.choice(['', '\n', 'é <!-- c -->\n  '])
         B = '${%s}' % bad
         if site == 'macro-body':
@@ -677,6 +678,15 @@ def layer_metal_and_error_handler_sites(ctx, n):
             src = '<p tal:condition="reach" tal:content="%s">x</p>' % bad
         elif site == 'plain-interpolation':
             src = '<p tal:condition="reach">${%s}</p>' % bad
+        elif site == 'pipe-alternative-after-a-literal':
+            # an alternative that can never be reached at run time (a literal stands before it) is still part of the template
+            src = '<p tal:condition="reach" tal:content="nosuchname | %s | %s">x</p>' % (rng.choice(['None', "'plain'", '0', '1.5', "''"]), bad)
+        elif site == 'exists-operand':
+            src = '<p tal:condition="reach" tal:content="exists: %s">x</p>' % bad
+        elif site == 'not-exists-operand':
+            src = '<p tal:condition="reach"><i tal:condition="not: exists: %s">x</i></p>' % bad
+        elif site == 'exists-in-interpolation':
+            src = '<p tal:condition="reach">${exists: %s}</p>' % bad
         elif site == 'later-pipe-alternative':
             src = '<p tal:condition="reach" tal:content="nosuchname | %s">x</p>' % bad
         else:
